@@ -38,6 +38,18 @@ CM_H = 'src/tbb/concurrent_monitor.h'
 CQ_H = 'include/oneapi/tbb/concurrent_queue.h'
 
 MUTANTS = [
+    dict(name='c05-seed2-3d-ratio-wrong-grainsize', prop='C05', clause='D2', edits=[('include/oneapi/tbb/blocked_range3d.h',
+        "            if ( my_rows.size()*double(my_cols.grainsize()) < my_cols.size()*double(my_rows.grainsize()) ) {",
+        "            if ( my_rows.size()*double(my_cols.grainsize()) < my_cols.size()*double(my_cols.grainsize()) ) {")]),
+    dict(name='c05-2d-ratio-own-grainsize', prop='C05', clause='D2', edits=[('include/oneapi/tbb/blocked_range2d.h',
+        "        if ( my_rows.size()*double(my_cols.grainsize()) < my_cols.size()*double(my_rows.grainsize()) ) {",
+        "        if ( my_rows.size()*double(my_rows.grainsize()) < my_cols.size()*double(my_cols.grainsize()) ) {")]),
+    dict(name='c06-seed2-scan-no-virtual-steal', prop='C06', clause='D4', edits=[('include/oneapi/tbb/parallel_scan.h',
+        "    bool treat_as_stolen = m_is_right_child && (is_stolen(ed) || &m_body.get()!=m_parent->m_result.m_left_sum);",
+        "    bool treat_as_stolen = m_is_right_child && is_stolen(ed);")]),
+    dict(name='c08-seed2-queuing-mutex-not-rearmed', prop='C08', clause='D6', edits=[('include/oneapi/tbb/queuing_mutex.h',
+        "            m_next.store(nullptr, std::memory_order_relaxed);\n            m_going.store(0U, std::memory_order_relaxed);\n\n            // x86 compare exchange operation always has a strong fence",
+        "            m_next.store(nullptr, std::memory_order_relaxed);\n\n            // x86 compare exchange operation always has a strong fence")]),
     dict(name='c07-seed2-token-reassigned-at-out-of-order-stage', prop='C07', clause='D6', edits=[(PP_CPP, """        Token token;
         if( is_ordered ) {
             if( !info.my_token_ready ) {
@@ -897,6 +909,9 @@ MUTANTS = [
 ]
 
 BENIGN = [
+    dict(name='c05-b-ratio-operands-commuted', prop='C05', edits=[('include/oneapi/tbb/blocked_range2d.h',
+        "        if ( my_rows.size()*double(my_cols.grainsize()) < my_cols.size()*double(my_rows.grainsize()) ) {",
+        "        if ( double(my_cols.grainsize())*my_rows.size() < double(my_rows.grainsize())*my_cols.size() ) {")]),
     dict(name='c11-b-snapshot-refreshed-in-wait', prop='C11', edits=[(CV_H, """                while (this->get_table()[seg_idx].load(std::memory_order_relaxed) == nullptr) {
                     backoff.pause();""", """                segment_table_type table = this->get_table();
                 while (table[seg_idx].load(std::memory_order_relaxed) == nullptr) {
